@@ -20,7 +20,7 @@ REAL, STUBBED = C.REAL, C.STUBBED
 
 
 def budget(tier):
-    return dict(nights=150, wall_s=170) if tier == "quick" else dict(nights=4500, wall_s=1700)
+    return dict(nights=250, wall_s=240) if tier == "quick" else dict(nights=4500, wall_s=1700)
 
 
 WORLD = dict(offices=["G", "S", "H"], unit_types=["precinct", "precinct", "county"], n_states=(1, 3), n_counties=(2, 7),
